@@ -322,7 +322,15 @@ func (t *Total) Merge(t2 *Total) *Total {
 					rateTotal.Base = rateTotal.Base.Add(rt.Base)
 					rateTotal.Amount = rateTotal.Amount.Add(rt.Amount)
 					if rt.Surcharge != nil {
-						rateTotal.Surcharge.Amount = rateTotal.Surcharge.Amount.Add(rt.Surcharge.Amount)
+						if rateTotal.Surcharge == nil {
+							// the row it is merged into had none
+							rateTotal.Surcharge = &RateTotalSurcharge{
+								Percent: rt.Surcharge.Percent,
+								Amount:  rt.Surcharge.Amount,
+							}
+						} else {
+							rateTotal.Surcharge.Amount = rateTotal.Surcharge.Amount.Add(rt.Surcharge.Amount)
+						}
 					}
 				}
 			}
